@@ -17,6 +17,7 @@ Str(s)  == [k |-> "str",  n |-> 0, s |-> s,   a |-> <<>>]
 Bool(b) == [k |-> "bool", n |-> IF b THEN 1 ELSE 0, s |-> "", a |-> <<>>]
 Null    == [k |-> "null", n |-> 0, s |-> "",  a |-> <<>>]
 Arr(a)  == [k |-> "arr",  n |-> 0, s |-> "",  a |-> a]
+Obj     == [k |-> "obj",  n |-> 0, s |-> "",  a |-> <<>>]     \* one object value, {z: 1} (a container that is no array)
 
 \* num(v) of DESIGN.md 3.1 for the scalars of this model (no numeric strings here)
 NumOf(v) == IF v.k \in {"num", "bool"} THEN v.n ELSE 0
@@ -25,7 +26,7 @@ NumOf(v) == IF v.k \in {"num", "bool"} THEN v.n ELSE 0
 LitCmp(v, lit) ==
   IF v.k = "null" /\ lit.k = "null" THEN "eq"
   ELSE IF v.k = "null" \/ lit.k = "null" THEN "ne"
-  ELSE IF v.k = "arr" \/ lit.k = "arr" THEN "err"
+  ELSE IF v.k \in {"arr", "obj"} \/ lit.k \in {"arr", "obj"} THEN "err"
   ELSE IF v.k = "str" /\ lit.k = "str" THEN (IF v.s = lit.s THEN "eq" ELSE "ne")
   ELSE IF NumOf(v) = NumOf(lit) THEN "eq" ELSE "ne"
 
@@ -92,13 +93,14 @@ SameUpToEq(a, b) ==
   IF a.k = "arr" /\ b.k = "arr"
   THEN Len(a.a) = Len(b.a) /\ \A i \in 1..Len(a.a) : SameUpToEq(a.a[i], b.a[i])
   ELSE IF a.k = "arr" \/ b.k = "arr" THEN FALSE
+  ELSE IF a.k = "obj" \/ b.k = "obj" THEN a = b
   ELSE LitCmp(a, b) = "eq"
 
 \* does matching v against p compare an array with a non-null literal anywhere
 \* (positions reachable when lengths agree)?
 RECURSIVE Touchy(_, _)
 Touchy(v, p) ==
-  IF p.t = "lit" THEN v.k = "arr" /\ p.v.k # "null"
+  IF p.t = "lit" THEN v.k \in {"arr", "obj"} /\ p.v.k # "null"
   ELSE IF p.t = "arr" /\ v.k = "arr" /\ Len(v.a) = Len(p.items)
        THEN \E i \in 1..Len(p.items) : Touchy(v.a[i], p.items[i])
   ELSE FALSE
